@@ -42,12 +42,12 @@ CHECKS['C13'] = dict(
 
 CHECKS['C05'] = dict(
     text='Ideal-AEAD (INT-CTXT) ghost log: the log holds what the genuine peers of both directions sealed, written from the protocol specifications with symbolic sizes and contents; the real decoders (Shadowsocks ChunkDecoder, the Shadowsocks TCP decoder for the AEAD and 2022 ciphers in server and client mode, the VMess body decoder in all size/padding modes on both sides) are driven the way FramedRead drives them on a FULLY ARBITRARY attacker byte string of arbitrary length delivered in 1 or 2 segments with a symbolic cut - every flip, truncation, deletion, duplication, swap, splice and reflection is a value of it. Oracle: the released bytes are a whole-chunk prefix of what the genuine sender of that direction wrote (2022: a reflected or opposite-direction stream releases nothing; legacy ciphers: reflection exempt as the property says). Counterexamples are replayed on the real FramedRead round the real decoder with the model AEAD outcomes.',
-    note='Trusted: rustc MIR dump, vf.engine, vf.ideal (a ciphertext opens only if the same key identity, nonce, length and tag were sealed; key derivations are injective pairings), props/wire.py layouts, z3. Bounds: K genuine chunks per direction (2 quick / 3 thorough), 1-2 segments. Async relay behaviour after an error is outside.',
+    note='Trusted: rustc MIR dump, vf.engine, vf.ideal (a ciphertext opens only if the same key identity, nonce, length and tag were sealed; key derivations are injective pairings), props/wire.py layouts, z3. Bounds: 2 genuine chunks per direction (3 for the AEAD-cipher client jobs), 1-2 segments; thorough = quick for this check (larger bounds measured not to finish). Async relay behaviour after an error is outside.',
     technique='MIR symbolic execution to z3 (ideal-AEAD ghost log; arbitrary attacker stream; prefix oracle)', design='DESIGN.md section 2, C05')
 
 CHECKS['C04'] = dict(
-    text='Genuine streams laid out from the specifications (symbolic sizes/contents, ideal-AEAD log in exact mode) are fed to the real decoders through a model of FramedRead\'s documented loop in 1, 2 (quick) or 3 (thorough) consecutive non-empty segments with symbolic cut points - every cut position of every frame length at once - after which the transport goes quiet: no segmentation yields an error, and everything the sender wrote has been released, in order, by the time the last byte has arrived (no stall, no loss). Decoders: Shadowsocks TCP (5 ciphers, server and client mode), VMess body decode_payload/decode_packet (plain / SHAKE-masked / authenticated sizes, with and without global padding, both sides), the VMess server codec from the first byte (auth id, sealed header, data section; TCP: connect item first; UDP: one item per datagram). Plus the MIR of the repository\'s own WebSocketFramed::poll_next with the transport and the codec as contracts: Pending is returned only if the transport returned Pending in that call, never while bytes are buffered that the decoder has not been asked about, and received-but-unconsumed bytes are kept. Counterexamples are replayed on the real tokio-util FramedRead / the real WebSocketFramed over tokio-websockets.',
-    note='Trusted: rustc MIR dump, vf.engine, vf.ideal exact mode, props/wire.py layouts, the FramedRead loop as documented (replays use the real one), z3. Shadowsocks 2022 salt+fixed header boundary exempt as the property says. Unauthenticated VMess size fields with 2+ segments run in the thorough tier only (10-20 min per job). Trojan/SOCKS5 framing: C02/C13. More than 3 segments and the transports below AsyncRead are outside.',
+    text='Genuine streams laid out from the specifications (symbolic sizes/contents, ideal-AEAD log in exact mode) are fed to the real decoders through a model of FramedRead\'s documented loop in 1 or 2 consecutive non-empty segments with symbolic cut points - every cut position of every frame length at once - after which the transport goes quiet: no segmentation yields an error, and everything the sender wrote has been released, in order, by the time the last byte has arrived (no stall, no loss). Decoders: Shadowsocks TCP (5 ciphers, server and client mode), VMess body decode_payload/decode_packet (plain / SHAKE-masked / authenticated sizes, with and without global padding, both sides), the VMess server codec from the first byte (auth id, sealed header, data section; TCP: connect item first; UDP: one item per datagram). Plus the MIR of the repository\'s own WebSocketFramed::poll_next with the transport and the codec as contracts: Pending is returned only if the transport returned Pending in that call, never while bytes are buffered that the decoder has not been asked about, and received-but-unconsumed bytes are kept. Counterexamples are replayed on the real tokio-util FramedRead / the real WebSocketFramed over tokio-websockets.',
+    note='Trusted: rustc MIR dump, vf.engine, vf.ideal exact mode, props/wire.py layouts, the FramedRead loop as documented (replays use the real one), z3. Shadowsocks 2022 salt+fixed header boundary exempt as the property says. Unauthenticated VMess size fields with 2+ segments run in the thorough tier only (10-20 min per job). Trojan/SOCKS5 framing: C02/C13. More than 2 segments (3 were measured not to finish within 10 minutes per job) and the transports below AsyncRead are outside.',
     technique='MIR symbolic execution to z3 (genuine stream, symbolic cut points, FramedRead loop model; poll_next with contract transport)', design='DESIGN.md section 2, C04 and section 7')
 
 CHECKS['C06'] = dict(
